@@ -137,7 +137,7 @@ func c01run(r *kernel.Run) {
 		return false
 	}
 	// try delivers an (altered) envelope to R as an entry of group gi; a successful open must be an authentic tuple
-	try := func(what string, gi int, env []byte, mustFail bool) bool {
+	try := func(cat, what string, gi int, env []byte, mustFail bool) bool {
 		h, pl, err := c01open(ctx, R, groups[gi], env)
 		r.Step()
 		if err != nil {
@@ -145,11 +145,11 @@ func c01run(r *kernel.Run) {
 		}
 		r.Probe("altered_envelope_opened_to_authentic_tuple")
 		if !authentic(gi, h.DevicePk, h.Counter, pl) {
-			r.Violate("authenticity", "delivered-with-wrong-content-or-attribution/"+what, "%s: the receiver opened an envelope to (device %x, counter %d, %d-byte payload) that no honest SealEnvelope produced for this group", what, h.DevicePk[:4], h.Counter, len(pl))
+			r.Violate("authenticity", "delivered-with-wrong-content-or-attribution/"+cat, "%s: the receiver opened an envelope to (device %x, counter %d, %d-byte payload) that no honest SealEnvelope produced for this group", what, h.DevicePk[:4], h.Counter, len(pl))
 			return false
 		}
 		if mustFail {
-			r.Violate("authenticity", "altered-envelope-accepted/"+what, "%s: an envelope altered inside an authenticated region was accepted (device %x, counter %d)", what, h.DevicePk[:4], h.Counter)
+			r.Violate("authenticity", "altered-envelope-accepted/"+cat, "%s: an envelope altered inside an authenticated region was accepted (device %x, counter %d)", what, h.DevicePk[:4], h.Counter)
 			return false
 		}
 		return true
@@ -189,7 +189,7 @@ func c01run(r *kernel.Run) {
 			e2 := append([]byte(nil), m.env...)
 			e2[bit/8] ^= 1 << (bit % 8)
 			r.Fault("bit_flip")
-			if !try(fmt.Sprintf("bit flip at %d of message %d", bit, i), m.group, e2, false) {
+			if !try("bit-flip", fmt.Sprintf("bit flip at %d of message %d", bit, i), m.group, e2, false) {
 				return
 			}
 		}
@@ -215,7 +215,7 @@ func c01run(r *kernel.Run) {
 			} {
 				e2, _ := proto.Marshal(v.e)
 				r.Fault("field_substitution")
-				if !try(fmt.Sprintf("%s (A=%d,B=%d)", v.name, i, j), msgs[i].group, e2, true) {
+				if !try("field-substitution", fmt.Sprintf("%s (A=%d,B=%d)", v.name, i, j), msgs[i].group, e2, true) {
 					return
 				}
 			}
@@ -226,7 +226,7 @@ func c01run(r *kernel.Run) {
 	if len(groups) > 1 {
 		for i, m := range msgs {
 			r.Fault("cross_group_replay")
-			if !try(fmt.Sprintf("message %d replayed in the other group", i), 1-m.group, m.env, true) {
+			if !try("cross-group-replay", fmt.Sprintf("message %d replayed in the other group", i), 1-m.group, m.env, true) {
 				return
 			}
 		}
@@ -262,7 +262,7 @@ func c01run(r *kernel.Run) {
 				{"counter - 1", &protocoltypes.MessageHeaders{Counter: hdr.Counter - 1, DevicePk: hdr.DevicePk, Sig: hdr.Sig}},
 			} {
 				r.Fault("re_attribution")
-				if !try(fmt.Sprintf("message %d %s", i, v.name), m.group, reseal(v.h, env.Message), true) {
+				if !try("re-attribution", fmt.Sprintf("message %d %s", i, v.name), m.group, reseal(v.h, env.Message), true) {
 					return
 				}
 			}
@@ -291,7 +291,7 @@ func c01run(r *kernel.Run) {
 			} {
 				r.Fault("member_forgery")
 				f := reseal(&protocoltypes.MessageHeaders{Counter: hdr.Counter, DevicePk: hdr.DevicePk, Sig: v.sig}, box)
-				if !try(fmt.Sprintf("message %d replaced by a payload forged under S's message key, %s", i, v.name), m.group, f, true) {
+				if !try("member-forgery", fmt.Sprintf("message %d replaced by a payload forged under S's message key, %s", i, v.name), m.group, f, true) {
 					return
 				}
 			}
